@@ -17,7 +17,8 @@ import (
 // and a read-only snapshot of its state.
 
 type verifState struct {
-	r *os.File // read end of the pipe standing in for the PTY
+	r  *os.File // read end of the pipe standing in for the PTY
+	fd int      // its descriptor, non-blocking (File.Fd would reset that)
 }
 
 var (
@@ -34,13 +35,14 @@ func VerifNew(w, h int) (*Model, error) {
 	if err != nil {
 		return nil, err
 	}
-	if err := syscall.SetNonblock(int(r.Fd()), true); err != nil {
+	fd := int(r.Fd())
+	if err := syscall.SetNonblock(fd, true); err != nil {
 		return nil, err
 	}
 	m.pty = wr
 	m.resize(w, h)
 	verifMu.Lock()
-	verifStates[m] = &verifState{r: r}
+	verifStates[m] = &verifState{r: r, fd: fd}
 	verifMu.Unlock()
 	return m, nil
 }
@@ -69,7 +71,7 @@ func VerifTakeReplies(m *Model) []byte {
 	var out []byte
 	buf := make([]byte, 4096)
 	for {
-		n, err := syscall.Read(int(st.r.Fd()), buf)
+		n, err := syscall.Read(st.fd, buf)
 		if n > 0 {
 			out = append(out, buf[:n]...)
 		}
